@@ -1,9 +1,10 @@
 // Verus unit `codec`: frame codec, greeting, decoder state machine (serves C01 C02 C03)
+//@@ define STUB_ITER
 #![feature(allocator_api)]
 #![allow(unused_imports, dead_code, unused_variables, unused_mut, unused_parens)]
 use vstd::prelude::*;
 use bytes::{Buf, BufMut, Bytes, BytesMut};
-use std::collections::vec_deque::{Iter, VecDeque};
+use std::collections::vec_deque::VecDeque;
 use std::collections::HashMap;
 use std::convert::{From, TryFrom};
 use vstd::std_specs::iter::IteratorSpec;
@@ -13,6 +14,7 @@ global size_of usize == 8;
 //@@ include prelude/std_specs.rs
 //@@ include prelude/spec_zmtp.rs
 //@@ include prelude/message_items.rs
+//@@ include prelude/enum_iter.rs
 //@@ include prelude/spec_zmtp_lemmas.rs
 
 //@@ include prelude/codec_types.rs
@@ -121,6 +123,53 @@ pub open spec fn rfc_command_ok(body: Seq<u8>) -> bool {
     &&& rfc_props_ok(drop_first(drop_first(body, 1), body[0] as int))
 }
 
+/// the properties of a well-formed property block, in wire order (name octets, value octets)
+pub open spec fn rfc_props_list(s: Seq<u8>) -> Seq<(Seq<u8>, Seq<u8>)>
+    decreases s.len()
+{
+    if s.len() == 0 || !rfc_props_ok(s) { Seq::empty() }
+    else {
+        let pl = s[0] as int;
+        let s1 = drop_first(s, 1);
+        let name = s1.subrange(0, pl);
+        let s2 = drop_first(s1, pl);
+        let vl = be32_val(s2.subrange(0, 4)) as int;
+        let s3 = drop_first(s2, 4);
+        seq![(name, s3.subrange(0, vl))] + rfc_props_list(drop_first(s3, vl))
+    }
+}
+/// value of the LAST property with this name (a later property overrides an earlier one of the same name)
+pub open spec fn props_lookup(l: Seq<(Seq<u8>, Seq<u8>)>, name: Seq<u8>) -> Option<Seq<u8>>
+    decreases l.len()
+{
+    if l.len() == 0 { None }
+    else if l.last().0 == name { Some(l.last().1) }
+    else { props_lookup(l.drop_last(), name) }
+}
+/// what the parsed command says about property `key`
+pub open spec fn cmd_lookup(m: Map<String, Bytes>, key: String) -> Option<Seq<u8>> {
+    if m.contains_key(key) { Some(b_view(&m[key])) } else { None }
+}
+/// the property block of a command body (after name-size and name)
+pub open spec fn rfc_props_of(body: Seq<u8>) -> Seq<u8> { drop_first(drop_first(body, 1), body[0] as int) }
+// ASSUMED about std String: a String is determined by its octets (UTF-8), it is a well-behaved hash key
+pub mod string_axioms {
+use super::*;
+pub broadcast axiom fn axiom_string_obeys_key_model()
+    ensures #[trigger] vstd::std_specs::hash::obeys_key_model::<String>();
+pub broadcast axiom fn axiom_string_by_bytes(a: String, b: String)
+    ensures #[trigger] string_bytes(&a) == #[trigger] string_bytes(&b) ==> a == b;
+pub broadcast group group_string { axiom_string_obeys_key_model, axiom_string_by_bytes }
+}
+pub proof fn lemma_props_list_unfold(s: Seq<u8>)
+    requires s.len() > 0, rfc_props_ok(s),
+    ensures ({
+        let pl = s[0] as int; let s1 = drop_first(s, 1); let s2 = drop_first(s1, pl);
+        let vl = be32_val(s2.subrange(0, 4)) as int; let s3 = drop_first(s2, 4);
+        rfc_props_list(s) == seq![(s1.subrange(0, pl), s3.subrange(0, vl))] + rfc_props_list(drop_first(s3, vl))
+    }),
+{}
+
 // A-REGION-2 (D5): `match &buf[..command_len] { b"READY" => .., _ => return Err(..) }` uses a byte-string
 // slice pattern, which crashes Verus.  The match is replaced by this stub; its ASSUMED contract carries the
 // slice's panic condition as precondition.  Kani `cmd_name_only` checks the region on the real function.
@@ -135,7 +184,8 @@ fn assumed_command_name(buf: &Bytes, command_len: usize) -> (r: Option<ZmqComman
 #[verifier::external_body]
 pub struct ExFromUtf8Error(std::string::FromUtf8Error);
 pub assume_specification[ String::from_utf8 ](v: Vec<u8>) -> (r: Result<String, std::string::FromUtf8Error>)
-    ensures r is Ok <==> utf8_ok(v@);
+    ensures r is Ok <==> utf8_ok(v@),
+            r matches Ok(s) ==> string_bytes(&s) == v@;
 pub assume_specification<T: Clone>[ <[T]>::to_vec ](s: &[T]) -> (r: Vec<T>)
     ensures r@ == s@;
 
@@ -159,8 +209,37 @@ impl vstd::std_specs::convert::TryFromSpecImpl<Bytes> for ZmqCommand {
 //@|        ensures
 //@|            r is Ok <==> rfc_command_ok(b_view(&buf)),
 //@|            r matches Ok(c) ==> c.name is READY,
+//@|            // the property map is exactly what the RFC grammar reads from the octets (last one wins)
+//@|            r matches Ok(c) ==> forall|k: String| cmd_lookup(c.properties@, k) == #[trigger] props_lookup(rfc_props_list(rfc_props_of(b_view(&buf))), string_bytes(&k)),
+//@ loopbody 1
+//@|            broadcast use string_axioms::group_string;
+//@|            broadcast use vstd::std_specs::hash::group_hash_axioms;
+//@|            proof { if rfc_props_ok(b_view(&buf)) { lemma_props_list_unfold(b_view(&buf)); } }
+//@|            let ghost cur0 = b_view(&buf);
+//@|            let ghost done0 = done;
+//@ loopend 1
+//@|            proof {
+//@|                let pb = string_bytes(&property);
+//@|                done = done0.push((pb, b_view(&prop_value)));
+//@|                assert(done.drop_last() =~= done0);
+//@|                assert(done.last() == (pb, b_view(&prop_value)));
+//@|                if rfc_props_ok(b_view(&buf)) {
+//@|                    assert(rfc_props_ok(cur0));
+//@|                    assert(rfc_props_list(cur0) =~= seq![(pb, b_view(&prop_value))] + rfc_props_list(b_view(&buf)));
+//@|                    assert(done0 + rfc_props_list(cur0) =~= done + rfc_props_list(b_view(&buf)));
+//@|                }
+//@|                assert forall|k: String| cmd_lookup(properties@, k) == #[trigger] props_lookup(done, string_bytes(&k)) by {
+//@|                    if k == property {
+//@|                    } else {
+//@|                        assert(string_bytes(&k) != pb);
+//@|                        assert(props_lookup(done, string_bytes(&k)) == props_lookup(done0, string_bytes(&k)));
+//@|                    }
+//@|                }
+//@|            }
 //@ loop 1
 //@|            invariant
+//@|                rfc_props_ok(b_view(&buf)) ==> rfc_props_list(rfc_props_of(b_view(&old_buf))) == done + rfc_props_list(b_view(&buf)),
+//@|                forall|k: String| cmd_lookup(properties@, k) == #[trigger] props_lookup(done, string_bytes(&k)),
 //@|                rfc_props_ok(b_view(&buf)) == rfc_props_ok(drop_first(drop_first(b_view(&old_buf), 1), b_view(&old_buf)[0] as int)),
 //@|                b_view(&old_buf).len() >= 1,
 //@|                drop_first(b_view(&old_buf), 1).len() >= b_view(&old_buf)[0],
@@ -168,7 +247,10 @@ impl vstd::std_specs::convert::TryFromSpecImpl<Bytes> for ZmqCommand {
 //@|                command is READY,
 //@|            decreases b_view(&buf).len(),
 //@ hint start
+//@|        broadcast use string_axioms::group_string;
+//@|        broadcast use vstd::std_specs::hash::group_hash_axioms;
 //@|        let ghost old_buf = buf;
+//@|        let ghost mut done: Seq<(Seq<u8>, Seq<u8>)> = Seq::empty();
 //@ end
 
 
@@ -492,6 +574,108 @@ pub open spec fn decode_post(st0: DAbs, buf0: Seq<u8>, r: Result<Option<Message>
 //@|        assert(bm_view(dst) =~= bm_view(old(dst)) + rfc_frame(b_view(frame), more, false));
 //@|    }
 //@ end
+
+// ---- <ZmqCodec as Encoder>::encode (src/codec/zmq_codec.rs): the multipart loop ----
+/// wire image of the first k frames of a message of n frames (MORE on all but the last of the n)
+pub open spec fn rfc_msg_upto(frames: Seq<Seq<u8>>, k: int) -> Seq<u8>
+    decreases k
+{
+    if k <= 0 { Seq::empty() } else { rfc_msg_upto(frames, k - 1) + rfc_frame(frames[k - 1], k - 1 < frames.len() - 1, false) }
+}
+/// the frame-by-frame image is the RFC image of the message
+pub proof fn lemma_roundtrip_upto(frames: Seq<Seq<u8>>, k: int)
+    requires 0 <= k <= frames.len(),
+    ensures rfc_msg_upto(frames, frames.len() as int) == rfc_msg_upto(frames, k) + rfc_msg_from(frames, k),
+    decreases frames.len() - k
+{
+    if k < frames.len() {
+        lemma_roundtrip_upto(frames, k + 1);
+        assert(rfc_msg_upto(frames, k + 1) == rfc_msg_upto(frames, k) + rfc_frame(frames[k], k < frames.len() - 1, false));
+        assert(rfc_msg_from(frames, k) == rfc_frame(frames[k], k < frames.len() - 1, false) + rfc_msg_from(frames, k + 1));
+        assert((rfc_msg_upto(frames, k) + rfc_frame(frames[k], k < frames.len() - 1, false)) + rfc_msg_from(frames, k + 1)
+            =~= rfc_msg_upto(frames, k) + (rfc_frame(frames[k], k < frames.len() - 1, false) + rfc_msg_from(frames, k + 1)));
+    } else {
+        assert(rfc_msg_from(frames, k) =~= Seq::<u8>::empty());
+        assert(rfc_msg_upto(frames, k) + Seq::<u8>::empty() =~= rfc_msg_upto(frames, k));
+    }
+}
+/// image of frames k.. of the message
+pub open spec fn rfc_msg_from(frames: Seq<Seq<u8>>, k: int) -> Seq<u8>
+    decreases frames.len() - k
+{
+    if k < 0 || k >= frames.len() { Seq::empty() } else { rfc_frame(frames[k], k < frames.len() - 1, false) + rfc_msg_from(frames, k + 1) }
+}
+pub proof fn lemma_roundtrip_from_is_msg(frames: Seq<Seq<u8>>, k: int)
+    requires 0 <= k <= frames.len(),
+    ensures rfc_msg_from(frames, k) == rfc_msg(frames.subrange(k, frames.len() as int)),
+    decreases frames.len() - k
+{
+    let t = frames.subrange(k, frames.len() as int);
+    if k < frames.len() {
+        lemma_roundtrip_from_is_msg(frames, k + 1);
+        assert(t[0] == frames[k]);
+        assert(t.subrange(1, t.len() as int) =~= frames.subrange(k + 1, frames.len() as int));
+        assert((t.len() > 1) == (k < frames.len() - 1));
+    }
+}
+pub proof fn lemma_roundtrip_upto_is_msg(frames: Seq<Seq<u8>>)
+    ensures rfc_msg_upto(frames, frames.len() as int) == rfc_msg(frames),
+{
+    lemma_roundtrip_upto(frames, 0);
+    lemma_roundtrip_from_is_msg(frames, 0);
+    assert(frames.subrange(0, frames.len() as int) =~= frames);
+    assert(rfc_msg_upto(frames, 0) + rfc_msg_from(frames, 0) =~= rfc_msg_from(frames, 0));
+}
+
+// the two serialisers `encode` dispatches to: STUBS here.  `From<ZmqGreeting>` is proved by Kani `greeting_ser`
+// (complete); `From<ZmqCommand>` is the function verified above as ZmqCommand::serialize.
+impl vstd::std_specs::convert::FromSpecImpl<ZmqGreeting> for BytesMut {
+    open spec fn obeys_from_spec() -> bool { false }
+    open spec fn from_spec(v: ZmqGreeting) -> Self { arbitrary() }
+}
+impl From<ZmqGreeting> for BytesMut {
+    #[verifier::external_body]
+    fn from(g: ZmqGreeting) -> Self { unimplemented!() }
+}
+impl vstd::std_specs::convert::FromSpecImpl<ZmqCommand> for BytesMut {
+    open spec fn obeys_from_spec() -> bool { false }
+    open spec fn from_spec(v: ZmqCommand) -> Self { arbitrary() }
+}
+impl From<ZmqCommand> for BytesMut {
+    #[verifier::external_body]
+    fn from(c: ZmqCommand) -> Self { unimplemented!() }
+}
+pub assume_specification[ BytesMut::unsplit ](b: &mut BytesMut, other: BytesMut)
+    ensures bm_view(final(b)) == bm_view(old(b)) + bm_view(&other);
+
+impl ZmqCodec {
+//@ item src/codec/zmq_codec.rs :: impl Encoder for ZmqCodec / fn encode
+//@ name ZmqCodec::encode
+//@ inherent
+//@ attr
+//@|    #[verifier::loop_isolation(false)]
+//@ ret r
+//@ spec
+//@|        requires message matches Message::Message(m) ==> m.fr().len() >= 1,
+//@|        ensures
+//@|            r is Ok,
+//@|            // C01: a message goes on the wire as exactly the RFC frame sequence of its frames
+//@|            message matches Message::Message(m) ==> bm_view(final(dst)) == bm_view(old(dst)) + rfc_msg(m.bodies()),
+//@ loop 1 it
+//@|                    invariant
+//@|                        it.seq() == Seq::new(message.fr().len(), |i: int| (i as usize, &message.fr()[i])),
+//@|                        bm_view(dst) == bm_view(old(dst)) + rfc_msg_upto(message.bodies(), it.index() as int),
+//@ loopbody 1
+//@|                    broadcast use fv_lemmas::group_frames_view;
+//@|                    proof {
+//@|                        assert(it.seq()[it.index() as int] == (idx, part));
+//@|                        assert(idx == it.index() && *part == message.fr()[idx as int]);
+//@|                        assert(message.bodies()[idx as int] == b_view(part));
+//@|                    }
+//@ afterloop 1
+//@|                proof { lemma_roundtrip_upto_is_msg(message.bodies()); }
+//@ end
+}
 
 } // verus!
 fn main() {}
